@@ -220,9 +220,9 @@ impl<F: PathFetcher> PathSet<F> {
 
                 let exit_reason = maintain.await;
 
-                // If manager still exists, drop the PathSet entry
+                // If manager still exists, drop the PathSet entry (unless it is a successor's)
                 if let Some(mgr) = self.manager.upgrade() {
-                    mgr.stop_managing_paths(self.src, self.dst);
+                    mgr.stop_managing_path_set(self.src, self.dst, &self.shared);
                 }
 
                 // Ensure no waiting tasks remain
